@@ -210,6 +210,19 @@ fn run(ctx: &RunCtx) -> Report {
                             }
                         }
                     }
+                    // or an *alias* of the live id: equal to it modulo 2^16 / 2^8 / 2^24, or with a high bit set
+                    // (an id comparison on a truncated value would take it for the outstanding request)
+                    if stale.is_none() && hr.chance(1, 2) {
+                        let alias = match hr.below(6) {
+                            0 => tid.wrapping_add(65_536),
+                            1 => tid.wrapping_add(65_536 * hr.range(2, 40) as u32),
+                            2 => tid ^ 0x0001_0000,
+                            3 => tid | 0x8000_0000,
+                            4 => tid.wrapping_add(1 << 24),
+                            _ => tid.wrapping_add(256),
+                        };
+                        stale = Some(alias);
+                    }
                     (stale.unwrap_or(tid + 500 + hr.range(0, 500) as u32), true)
                 } else if hr.chance(3, 4) {
                     (tid, false)
